@@ -2,8 +2,10 @@ package main
 
 import (
 	"flag"
+	"fmt"
 	"google.golang.org/protobuf/proto"
 	"math/rand"
+	"sort"
 	"strings"
 	"time"
 
@@ -77,6 +79,55 @@ func shuffleNode(r *rand.Rand, n *sbom.Node) *sbom.Node {
 }
 
 // separator attacks: pairs that differ in content but whose flattened encodings may coincide
+// adjFact is a derived fact about two projected nodes: they differ ONLY in their node-level hashes, and writing each
+// hashes map as its "key:value" entries in the order of the keys read as strings, with nothing in between, gives the same
+// text for both ({1:"a",12:"b"} and {1:"a1",2:"b"} both read "1:a12:b").  Computed from the projections alone.
+func adjFact(a, b any) bool {
+	ma, ok1 := a.(map[string]any)
+	mb, ok2 := b.(map[string]any)
+	if !ok1 || !ok2 {
+		return false
+	}
+	flat := func(m map[string]any) (string, bool) {
+		pairs, ok := m["hashes"].([]any)
+		if !ok {
+			return "", false
+		}
+		kv := map[string]string{}
+		keys := []string{}
+		for _, p := range pairs {
+			pr, ok := p.([]any)
+			if !ok || len(pr) != 2 {
+				return "", false
+			}
+			k := fmt.Sprint(pr[0])
+			keys = append(keys, k)
+			kv[k] = fmt.Sprint(pr[1])
+		}
+		sort.Strings(keys)
+		out := ""
+		for _, k := range keys {
+			out += k + ":" + kv[k]
+		}
+		return out, true
+	}
+	fa, oka := flat(ma)
+	fb, okb := flat(mb)
+	if !oka || !okb || fa != fb {
+		return false
+	}
+	rest := func(m map[string]any) string {
+		c := map[string]any{}
+		for k, v := range m {
+			if k != "hashes" {
+				c[k] = v
+			}
+		}
+		return canon(c)
+	}
+	return rest(ma) == rest(mb) && canon(ma["hashes"]) != canon(mb["hashes"])
+}
+
 func attackPairs() [][2]*sbom.Node {
 	return [][2]*sbom.Node{
 		{{Id: "i", Name: "x", Version: "y"}, {Id: "i", Name: "x:protobom.protobom.Node.version:y"}},
@@ -89,6 +140,17 @@ func attackPairs() [][2]*sbom.Node {
 		{{Id: "i", Suppliers: []*sbom.Person{{Name: "n"}}, Originators: nil}, {Id: "i", Originators: []*sbom.Person{{Name: "n"}}}},
 		{{Id: "i", Attribution: []string{"x"}}, {Id: "i", FileTypes: []string{"x"}}},
 		{{Id: "i", ReleaseDate: nil, Name: "protobom.protobom.Node.release_date:5"}, {Id: "i", Name: "protobom.protobom.Node.release_date:5", Version: ""}},
+		// map entries next to each other: a digest followed by the next algorithm number (no separator character in any value)
+		{{Id: "i", Hashes: map[int32]string{1: "a", 12: "b"}}, {Id: "i", Hashes: map[int32]string{1: "a1", 2: "b"}}},
+		{{Id: "i", Hashes: map[int32]string{3: "a", 14: "b"}}, {Id: "i", Hashes: map[int32]string{3: "a1", 4: "b"}}},
+		{{Id: "i", Identifiers: map[int32]string{1: "p", 12: "q"}}, {Id: "i", Identifiers: map[int32]string{1: "p1", 2: "q"}}},
+		{{Id: "i", ExternalReferences: []*sbom.ExternalReference{{Url: "u", Hashes: map[int32]string{1: "d41d8c", 12: "af1349"}}}},
+			{Id: "i", ExternalReferences: []*sbom.ExternalReference{{Url: "u", Hashes: map[int32]string{1: "d41d8c1", 2: "af1349"}}}}},
+		// a map entry whose value is the empty string is an entry
+		{{Id: "i", Hashes: map[int32]string{1: "a", 2: ""}}, {Id: "i", Hashes: map[int32]string{1: "a"}}},
+		{{Id: "i", ExternalReferences: []*sbom.ExternalReference{{Url: "u", Hashes: map[int32]string{1: "a", 2: ""}}}},
+			{Id: "i", ExternalReferences: []*sbom.ExternalReference{{Url: "u", Hashes: map[int32]string{1: "a"}}}}},
+		{{Id: "i", Identifiers: map[int32]string{1: ""}}, {Id: "i"}},
 	}
 }
 
@@ -109,7 +171,7 @@ func nodeRun(args []string) error {
 	emitEq := func(a, b *sbom.Node, how string) {
 		sid++
 		pa, pb := proj.Node(a), proj.Node(b)
-		ev := map[string]any{"op": "NodeEq", "sid": sid, "how": how, "a": pa, "b": pb, "sep": sepFact(pa, pb)}
+		ev := map[string]any{"op": "NodeEq", "sid": sid, "how": how, "a": pa, "b": pb, "sep": sepFact(pa, pb), "adj": adjFact(pa, pb)}
 		ev["eq"], ev["eqba"], ev["eqaa"], ev["eqbb"] = a.Equal(b), b.Equal(a), a.Equal(a), b.Equal(b)
 		ev["csa"], ev["csb"] = a.Checksum(), b.Checksum()
 		w.write(ev)
@@ -268,6 +330,12 @@ func genEdgeListEq(r *rand.Rand, w *ndWriter, sid *int, n int) {
 		var eq bool
 		k, t := guarded(5*time.Second, func() { eq = f() })
 		w.write(map[string]any{"op": "NilEq", "sid": *sid, "kind": strings.TrimSuffix(kind, "-zero"), "case": kind, "o": outcome(k, t), "eq": eq})
+	}
+	// the same number of targets, different multiplicities
+	for _, p := range [][2][]string{{{"b", "b"}, {"b", "c"}}, {{"b", "b", "c"}, {"b", "c", "c"}}, {{"b", "c", "b"}, {"c", "b", "c"}}, {{"b", "b"}, {"b"}}} {
+		x, y := &sbom.Edge{Type: 5, From: "a", To: p[0]}, &sbom.Edge{Type: 5, From: "a", To: p[1]}
+		emitEdgeEq(w, sid, x, y, "multiplicity")
+		emitEdgeEq(w, sid, y, x, "multiplicity-rev")
 	}
 	emitEdgeEq(w, sid, &sbom.Edge{From: "a", To: []string{"b", "c"}}, &sbom.Edge{From: "a", To: []string{"b+c"}}, "attack")
 	emitEdgeEq(w, sid, &sbom.Edge{From: "a", Type: 5, To: []string{"b"}}, &sbom.Edge{From: "a:contains:b", Type: 5}, "attack")
